@@ -36,30 +36,55 @@ struct EpollJob {
 }
 
 impl Task for EpollJob {
+    #[cfg(khttp_verif)]
+    fn verif_id(&self) -> u64 {
+        self.handle_ptr
+    }
+
     #[inline(always)]
     fn run(self) {
         let handle = unsafe { &*(self.handle_ptr as *const Handle) };
         let stream = unsafe { &*(handle.stream_ptr) };
+        #[cfg(khttp_verif)]
+        let (vw, vh) = (crate::verif::worker_id(), self.handle_ptr);
+        #[cfg(khttp_verif)]
+        crate::verif::emit(format!("WT{}:{:x}", vw, vh));
 
         let mut response = ResponseHandle::new(stream);
         let result = handle_one_request(stream, &mut response, &handle.handler_config);
 
         if let Ok(true) = result {
+            #[cfg(khttp_verif)]
+            let _sync = crate::verif::sync_lock();
+            #[cfg(khttp_verif)]
+            crate::verif::emit(format!("WK{}:{:x}", vw, vh));
             handle.in_flight.store(false, Ordering::Release);
             return;
         }
 
         // close the connection
         let reaper = Arc::clone(&handle.reaper);
+        #[cfg(khttp_verif)]
+        crate::verif::emit(format!("WD{}:{:x}", vw, vh));
         unsafe {
             let _ = epoll_ctl(handle.epfd, EPOLL_CTL_DEL, handle.fd, ptr::null_mut());
+            #[cfg(khttp_verif)]
+            crate::verif::emit(format!("WS{}:{:x}", vw, vh));
             let stream = *Box::from_raw(handle.stream_ptr);
             match &handle.handler_config.connection_teardown_hook {
                 Some(hook) => (hook)(stream, result.map(|_| ())),
                 None => drop(stream),
             }
         }
+        #[cfg(khttp_verif)]
+        let _sync = crate::verif::sync_lock();
+        #[cfg(khttp_verif)]
+        crate::verif::emit(format!("WC{}:{:x}", vw, vh));
         handle.closed.store(true, Ordering::Release);
+        #[cfg(khttp_verif)]
+        drop(_sync);
+        #[cfg(khttp_verif)]
+        crate::verif::emit(format!("WR{}:{:x}", vw, vh));
 
         // Hand the record over to the event loop, which frees it once the batch of events it is
         // processing is done (only then can no harvested event refer to it any more).
@@ -128,6 +153,19 @@ impl Server {
                 }
             }
 
+            #[cfg(khttp_verif)]
+            crate::verif::emit(format!(
+                "B{}",
+                events[..n as usize]
+                    .iter()
+                    .map(|e| match e.u64 {
+                        LISTENER_TOKEN => "L".to_string(),
+                        WAKE_TOKEN => "W".to_string(),
+                        t => format!("{:x}", t),
+                    })
+                    .collect::<Vec<_>>()
+                    .join("+")
+            ));
             for ev in &events[..n as usize] {
                 let token = ev.u64;
 
@@ -138,6 +176,12 @@ impl Server {
                             stream = match (hook)(Ok((stream, _peer))) {
                                 ConnectionSetupAction::Proceed(s) => s,
                                 ConnectionSetupAction::Drop => continue,
+                                #[cfg(khttp_verif)]
+                                ConnectionSetupAction::StopAccepting => {
+                                    crate::verif::emit("ST".to_string());
+                                    return Ok(());
+                                }
+                                #[cfg(not(khttp_verif))]
                                 ConnectionSetupAction::StopAccepting => return Ok(()),
                             }
                         }
@@ -161,7 +205,11 @@ impl Server {
                             events: (EPOLLIN | EPOLLRDHUP) as u32,
                             u64: handle_ptr,
                         };
+                        #[cfg(khttp_verif)]
+                        let vport = _peer.port();
                         if unsafe { epoll_ctl(epfd, EPOLL_CTL_ADD, fd, &mut cev) } == -1 {
+                            #[cfg(khttp_verif)]
+                            crate::verif::emit(format!("AF{:x}:{}", handle_ptr, vport));
                             // the connection cannot be served: release the record AND the socket
                             let err = io::Error::last_os_error();
                             let stream = unsafe {
@@ -172,7 +220,11 @@ impl Server {
                                 Some(hook) => (hook)(stream, Err(err)),
                                 None => drop(stream),
                             }
+                            #[cfg(khttp_verif)]
+                            continue;
                         }
+                        #[cfg(khttp_verif)]
+                        crate::verif::emit(format!("AC{:x}:{}", handle_ptr, vport));
                     }
                 } else if token == WAKE_TOKEN {
                     // a worker closed a connection: its record is freed after this batch
@@ -180,6 +232,16 @@ impl Server {
                 } else {
                     let handle_ptr = token as *mut Handle;
                     let handle = unsafe { &*handle_ptr };
+                    #[cfg(khttp_verif)]
+                    let _sync = crate::verif::sync_lock();
+                    #[cfg(khttp_verif)]
+                    crate::verif::emit(if handle.closed.load(Ordering::Acquire) {
+                        format!("LK{:x}", token)
+                    } else if handle.in_flight.load(Ordering::Relaxed) {
+                        format!("LF{:x}", token)
+                    } else {
+                        format!("LD{:x}", token)
+                    });
                     // a stale event of a connection closed meanwhile is ignored
                     if !handle.closed.load(Ordering::Acquire)
                         && handle
@@ -193,6 +255,8 @@ impl Server {
             }
             // Every event of this batch has been processed and closed connections were removed
             // from the epoll set before their record was queued: nothing refers to them any more.
+            #[cfg(khttp_verif)]
+            crate::verif::emit("BE".to_string());
             reaper.free_dead();
         }
     }
